@@ -118,7 +118,7 @@ func checkC11(c *Ctx) {
 	if len(gos) > 0 {
 		c.Notes = append(c.Notes, "gocc starts goroutines: scheduling is outside this kernel-level claim")
 	}
-	c.BoundsText = append(c.BoundsText, "parser table writers (GenActionTable, GenGotoTable, GenParser, GenProductionsTable; plain and -zip) on a five-production grammar: template and gob/gzip-encoder input recorded in natural map order and with one execution of a range-over-map statement in another order (every choice on its own path) must be deeply equal")
+	c.BoundsText = append(c.BoundsText, "lexer writers (genLexer, genTransitionTable, genActionTable; with and without -debug_lexer) and parser table writers (GenActionTable, GenGotoTable, GenParser, GenProductionsTable; plain and -zip) on a small grammar: template and gob/gzip-encoder input recorded in natural map order and with one execution of a range-over-map statement in another order (every choice on its own path) must be deeply equal")
 	c.BoundsText = append(c.BoundsText, "kernel level only: 2-safety harnesses over functions that iterate maps on the generation path, with every map iteration order symbolic (a fresh permutation index per range statement, <= 4 entries); the run also lists from SSA every range over a map in gocc's packages and which of them a harness executed (evidence keys map_range_sites_*), and every go statement (none = no scheduling nondeterminism)",
 		"outside the claim: byte identity of whole runs; map ranges listed as not vetted (several only feed debug/verbose output); hash-seed effects other than iteration order")
 	c.Assumptions = append(c.Assumptions, "Go's map iteration nondeterminism = an arbitrary permutation of the entries per range statement")
@@ -167,6 +167,37 @@ func c11WriterJobs() []Job {
 		},
 	}
 	var jobs []Job
+	lpkg := RepoMod + "/internal/lexer/gen/golang"
+	lt := repoTarget("internal/lexer/gen/golang", "golang", "lexgen/c11.go")
+	lrec := func(e *engine.Engine, st *engine.St, args []engine.Value, call *ssa.CallCommon) (engine.Value, bool) {
+		f := e.FindFunc(lpkg, "verifRecordExecute")
+		if f == nil {
+			panic("harness function verifRecordExecute not found")
+		}
+		e.CallFunc(st, f, []engine.Value{args[2]}, nil)
+		return zero(e, st, args, call)
+	}
+	lintr := map[string]engine.Intrinsic{
+		"text/template.New":                      zero,
+		"(*text/template.Template).Parse":        zero,
+		"(*text/template.Template).Execute":      lrec,
+		RepoMod + "/internal/io.WriteFile":       zero,
+		RepoMod + "/internal/io.WriteFileString": zero,
+	}
+	for dbg := 0; dbg <= 1; dbg++ {
+		jobs = append(jobs, Job{
+			Name:   fmt.Sprintf("lexer writers debug=%d", dbg),
+			Target: lt,
+			Run: SymRun{Harness: "VerifC11LexWriters", Params: map[string]int{"DEBUG": dbg}, LoopBound: 20000, ConcreteFmt: true, ForkFuncs: []string{"VerifC11LexWriters"}, ForkPkgs: []string{lpkg}, Intrinsics: lintr,
+				InitPkgs: func(p string) bool {
+					return p == "sort" || p == "unicode" || p == "unicode/utf8" || p == "strconv" || (strings.HasPrefix(p, RepoMod) && !strings.Contains(p, "/gen/") && !strings.HasSuffix(p, "/gen")) || p == lpkg
+				}},
+			TimeoutS:       900,
+			ReplayParams:   map[string]int{"REPEAT": 40},
+			RequiredCovers: []string{"end"},
+			Bounds:         fmt.Sprintf("lexer/gen/golang.Gen (genLexer, genTransitionTable, genActionTable; debug_lexer=%d) on the item sets of a four-token lexical part: the data handed to text/template, recorded in natural map order and with ONE execution of any range-over-map statement inside the writers in another order, must be deeply equal", dbg),
+		})
+	}
 	for zip := 0; zip <= 1; zip++ {
 		jobs = append(jobs, Job{
 			Name:   fmt.Sprintf("table writers zip=%d", zip),
